@@ -390,6 +390,20 @@ def c04(repo, res):
                      for t in a_.targets if isinstance(t, ast.Name)}
             full_iter = t_it in svars or t_it in {f"list({v})" for v in svars} | {f"range(len({v}))" for v in svars} | {f"range({v})" for v in nvars}
             if not full_iter:
+                # `zip(sensors, <per-sensor lists>)`, possibly through a name: all sensors are visited when the list of all sensors is one of
+                # the zipped sequences and the others are plain names / slices of names (the per-sensor bookkeeping lists)
+                zc = it
+                if isinstance(zc, ast.Name):
+                    defs = [a_.value for a_ in ast.walk(node) if isinstance(a_, ast.Assign) and len(a_.targets) == 1 and isinstance(a_.targets[0], ast.Name)
+                            and a_.targets[0].id == zc.id]
+                    zc = defs[0] if len(defs) == 1 else zc
+                if isinstance(zc, ast.Call) and getattr(zc.func, "id", "") == "zip" and not zc.keywords:
+                    def plain(a):
+                        while isinstance(a, ast.Subscript) and isinstance(a.slice, ast.Slice):
+                            a = a.value
+                        return isinstance(a, ast.Name)
+                    full_iter = any(isinstance(a, ast.Name) and a.id in svars for a in zc.args) and all(plain(a) for a in zc.args)
+            if not full_iter:
                 chain.append(f"loop over `{t_it}` instead of all sensors")
         ok7 = not chain and not early and loop is not None
         res.ob("F7:handedness flip reached for every sensor", ok7, {"rule": "F7", "enclosing_conditions": chain, "early_loop_exits_before_it": len(early)})
